@@ -6,6 +6,7 @@ INVARIANT RoundTrip
 INVARIANT CodecRoundTrip
 INVARIANT JsonRoundTrip
 INVARIANT MediaTypeSane
+INVARIANT HistSane
 INVARIANT CoerceJsonLike
 INVARIANT Export
 CHECK_DEADLOCK FALSE
